@@ -81,6 +81,7 @@ type vWorld struct {
 	clockMode int // 0 arbitrary, 1 strictly increasing
 	lastClock int64
 	skipStorageCheck bool
+	tolerant  bool // tampering scenarios: immutability / discard monitors are off
 	poolSize  int
 	curOp     string
 	armedClock bool // clock readings are symbolic (after the pre-state has been built)
@@ -222,7 +223,7 @@ func (b *vBackend) Upload(ctx context.Context, key string, data []byte, opts *Up
 func (w *vWorld) applyUpload(key string, data []byte, opts *UploadOptions) {
 	data = append([]byte{}, data...)
 	old, exists := w.objects[key]
-	if exists && old.immutable {
+	if exists && old.immutable && !w.tolerant {
 		verifAssert(verifBytesEq(old.data, data), "an immutable object is rewritten with different bytes: "+key)
 	}
 	o := &vObject{data: data}
